@@ -38,13 +38,13 @@ impl IncomingConnectionFlowControllerImpl {
 //@| requires icfc_inv(self.abs()),
 //@| ensures ret.0 as int == self.abs().advertised - self.abs().acquired,
 
-//@ splice-fn quic/s2n-quic-transport/src/stream/incoming_connection_flow_controller.rs "IncomingConnectionFlowControllerImpl" acquire_window vis=strip "subst=self.acquired_window += desired;=>self.acquired_window.add_assign(desired);@@transport::Error=>TransportError"
+//@ splice-fn quic/s2n-quic-transport/src/stream/incoming_connection_flow_controller.rs "IncomingConnectionFlowControllerImpl" acquire_window vis=strip "subst=transport::Error=>TransportError" desugar=assign_ops
 //@| requires icfc_inv(old(self).abs()), desired.wf(),
 //@| ensures
 //@|     icfc_acquire_post(old(self).abs(), desired.0 as int, final(self).abs(), ret is Ok, (if ret is Err { ret->Err_0.code as int } else { 0int })),
 //@|     icfc_inv(final(self).abs()),
 
-//@ splice-fn quic/s2n-quic-transport/src/stream/incoming_connection_flow_controller.rs "IncomingConnectionFlowControllerImpl" release_window vis=strip drop=debug_assert "subst=self.consumed_window += amount;=>self.consumed_window.add_assign(amount);"
+//@ splice-fn quic/s2n-quic-transport/src/stream/incoming_connection_flow_controller.rs "IncomingConnectionFlowControllerImpl" release_window vis=strip drop=debug_assert desugar=assign_ops
 //@| requires icfc_inv(old(self).abs()), icfc_release_pre(old(self).abs(), amount.0 as int),
 //@| ensures
 //@|     icfc_release_post(old(self).abs(), amount.0 as int, final(self).abs()),
@@ -87,14 +87,14 @@ impl ReceiveStreamFlowController {
     }
     pub closed spec fn conn(&self) -> Icfc { self.connection_flow_controller.inner.abs() }
 
-//@ splice-fn quic/s2n-quic-transport/src/stream/receive_stream.rs "ReceiveStreamFlowController" release_window vis=strip "subst=self.released_connection_window += amount;=>self.released_connection_window.add_assign(amount);"
+//@ splice-fn quic/s2n-quic-transport/src/stream/receive_stream.rs "ReceiveStreamFlowController" release_window vis=strip desugar=assign_ops
 //@| requires rsfc_inv(old(self).abs()), icfc_inv(old(self).conn()), rsfc_release_pre(old(self).abs(), amount.0 as int),
 //@|     icfc_release_pre(old(self).conn(), amount.0 as int),
 //@| ensures
 //@|     rsfc_release_post(old(self).abs(), amount.0 as int, final(self).abs(), old(self).conn(), final(self).conn()),
 //@|     rsfc_inv(final(self).abs()), icfc_inv(final(self).conn()),
 
-//@ splice-fn quic/s2n-quic-transport/src/stream/receive_stream.rs "ReceiveStreamFlowController" acquire_window_up_to vis=strip "subst=self.acquired_connection_window += additional_connection_window;=>self.acquired_connection_window.add_assign(additional_connection_window);@@transport::Error=>TransportError@@source_frame_type.unwrap_or_default().into()=>VarInt::from_u8(source_frame_type.unwrap_or_default())"
+//@ splice-fn quic/s2n-quic-transport/src/stream/receive_stream.rs "ReceiveStreamFlowController" acquire_window_up_to vis=strip "subst=transport::Error=>TransportError@@source_frame_type.unwrap_or_default().into()=>VarInt::from_u8(source_frame_type.unwrap_or_default())" desugar=assign_ops
 //@| requires rsfc_inv(old(self).abs()), icfc_inv(old(self).conn()), offset.wf(),
 //@| ensures
 //@|     rsfc_acquire_over_stream_limit_rejected(old(self).abs(), offset.0 as int, ret is Ok),
